@@ -198,6 +198,8 @@ func genSmpHistory(w *bufio.Writer, rng *rand.Rand, maxN int, quantOnly bool) {
 		n := rng.Intn(maxN + 1)
 		if rng.Intn(5) == 0 {
 			n = rng.Intn(4)
+		} else if rng.Intn(12) == 0 { // the quick tier too sees a few long samples
+			n = 41 + rng.Intn(160)
 		}
 		xs := smpValues(rng, n, positive)
 		ws := "-"
